@@ -185,7 +185,7 @@ def check_case(case, ctx):
 
 
 def reach(counters, tier, info):
-    k = 1 if tier == "quick" else 20
+    k = 0.5 if tier == "quick" else 20
     out = []
     v = counters.get("decision_count_differs_from_2_steps_m", 0)
     out.append({"name": "Markov calls whose decision count differs from 2 x steps x m", "observed": v, "required": 0,
